@@ -169,6 +169,7 @@ func runVdrProperty(c *Ctx, prop string) {
 	if prop == "C04" {
 		vdrFsChecks(c)
 	}
+	vdrWalkChecks(c, prop)
 	phase("pure+fs")
 	modes := []string{"rolling", "strict", "post"}
 	var specs []*VdrSpec
